@@ -484,6 +484,27 @@ def impl_groupby(np, ds, case):
     ddf = ds.create_dataframe("ddf")
     by = knames[0] if len(knames) == 1 and case.get("_n", 0) % 2 == 0 else knames
     agg = case["agg"]
+    if case.get("_n", 0) % 5 == 4 and case["keys"] and len(case["keys"][0]["data"]) >= 2:
+        # the frame was grouped before with OTHER key values in the same columns (same field objects, same lengths): the keys
+        # first hold the rows in reverse order, one group-by is run, then the real keys are written over them in place. The
+        # measured call below must group what the columns hold now.
+        def put(nm, k, data):
+            f = df[nm]
+            if k["dtype"] == "indexed":
+                f.data.clear()
+                f.data.write(list(data))
+            elif k["dtype"].startswith("S"):
+                f.data[:] = np.array([v.encode("latin-1") for v in data], dtype=k["dtype"])
+            else:
+                f.data[:] = np.array(data, dtype=k["dtype"])
+        for nm, k in zip(knames, case["keys"]):
+            put(nm, k, list(reversed(k["data"])))
+        try:
+            df.groupby(by, hint_keys_is_sorted=case["hint"]).count(ds.create_dataframe("before"))
+        except Exception:  # noqa  (a sorted hint need not be truthful for the reversed rows)
+            pass
+        for nm, k in zip(knames, case["keys"]):
+            put(nm, k, k["data"])
     if agg == "distinct" and case.get("api") == "drop_duplicates":
         df.drop_duplicates(by, ddf, hint_keys_is_sorted=case["hint"])
     else:
